@@ -235,18 +235,18 @@ impl Transport {
 
 //@@ fn file=fe2o3-amqp/src/transport/mod.rs impl=`~impl<Io>Transport<Io,amqp::Frame>whereIo:AsyncRead+AsyncWrite+Unpin` name=set_encoder_max_frame_size
 //@@ ret ()
-//@@ subst `std::cmp::max(MIN_MAX_FRAME_SIZE, max_frame_size)` => `usize_max(MIN_MAX_FRAME_SIZE, max_frame_size)` rule=R16
+//@@ subst `std::cmp::max(MIN_MAX_FRAME_SIZE, max_frame_size)` => `usize_max(MIN_MAX_FRAME_SIZE, max_frame_size)` rule=R16 unless `cmp::max|\.max\(`
 //@@ subst `; self }` => `; }` rule=R7
 //@@ spec
     ensures
         final(self).framed_write.codec.max == (if max_frame_size >= 512 { max_frame_size } else { 512 }) - 4,          // [C06.transport.encoder-limit] an item handed to the length-delimited writer may be at most (peer's max-frame-size, but at least 512) minus the 4 octets of the size field: the frame on the wire never exceeds the peer's max-frame-size
-        final(self).framed_write.codec.max >= 508,
+        final(self).framed_write.codec.max >= 508,       // [C15.transport.peer-max-frame-size-clamped] whatever max-frame-size the peer announces (0, 3, 7: below the protocol's minimum) the encoder limit stays sane: no underflow here or in the frame encoder
         final(self).framed_write.items == old(self).framed_write.items, final(self).framed_read == old(self).framed_read, final(self).idle_timeout == old(self).idle_timeout,
 //@@ end
 
 //@@ fn file=fe2o3-amqp/src/transport/mod.rs impl=`~impl<Io>Transport<Io,amqp::Frame>whereIo:AsyncRead+AsyncWrite+Unpin` name=set_decoder_max_frame_size
 //@@ ret ()
-//@@ subst `std::cmp::max(MIN_MAX_FRAME_SIZE, max_frame_size)` => `usize_max(MIN_MAX_FRAME_SIZE, max_frame_size)` rule=R16
+//@@ subst `std::cmp::max(MIN_MAX_FRAME_SIZE, max_frame_size)` => `usize_max(MIN_MAX_FRAME_SIZE, max_frame_size)` rule=R16 unless `cmp::max|\.max\(`
 //@@ subst `; self }` => `; }` rule=R7
 //@@ spec
     ensures
